@@ -131,58 +131,60 @@ c.modifies('self.state', 'self.sid', 'self.queue.items', 'self.queue.unf',
 # Client._write_loop: takes everything that is queued, transmits it once and in order on the
 # transport in use, marks it done. On polling one POST carries the whole batch (C10: the server
 # accepts at most 16 packets per body - obligation post-batch-within-server-limit).
-c = REG.contract('client.Client._send_request')
-c.trusted = True
-c.libimpl = 'rt.http_request'
-c.trusted_reason = 'requests.Session.request (HTTP library; library contract: rt.http_request)'
+for _cls, _mod in (('Client', 'client'), ('AsyncClient', 'async_client')):
+    c = REG.contract('%s.%s._send_request' % (_mod, _cls))
+    c.trusted = True
+    c.libimpl = 'rt.http_request'
+    c.trusted_reason = 'requests.Session.request (HTTP library; library contract: rt.http_request)'
 
-c = REG.contract('client.Client._write_loop', props=['C09', 'C10'])
-c.param('self', Ref('Client'))
-c.requires("self.queue is not None and self.queue.unf >= len(self.queue.items) and "
-           "implies(self.current_transport != 'polling', self.ws is not None)", 'client-wf')
-c.requires("isinstance(self.ping_interval, float) and isinstance(self.ping_timeout, float) and "
-           "isinstance(self.base_url, str)", 'timing-adopted-from-open')
-c.queue_rely('x is None or packet_ok(x)',
-             'guarantee side: precondition packet-wf of _send_packet, proved at its call sites')
-c.may_raise('Exception', "self.current_transport != 'polling'", label='websocket-library-error')
-W_MOD = ['self.queue.items', 'self.queue.unf', 'self.queue.taken', 'self.queue.accepted',
-         'self.queue.put_none', 'self.queue.taken_none', 'self.write_loop_task', 'ghost.now',
-         'ghost.http_bodies', 'ghost.ws_log', 'Packet.encode_cache', 'new Payload.packets']
-c.modifies(*W_MOD)
-c.ensures('taken-only-grows', 'grows(self.queue.taken, old(self.queue.taken))', props=['C09'])
-c.loop(0, invariants=[
-    ('taken-only-grows', 'grows(self.queue.taken, old(self.queue.taken))'),
-    ('queue-wf', 'self.queue is not None and self.queue.unf >= len(self.queue.items)'),
-    ('transport-object', "implies(self.current_transport != 'polling', self.ws is not None)")],
-    modifies=['packets', 'timeout', 'p', 'r', 'pkt', 'encoded_packet'] + W_MOD)
-c.ghost_before('timeout = max(self.ping_interval, self.ping_timeout) + 5', 'taken0',
-               'self.queue.taken')
-c.loop(1, invariants=[
-    ('batch-is-what-was-taken', 'self.queue.taken == taken0 + packets'),
-    ('no-sentinel-in-batch', 'forall(lambda k: packets[k] is not None and packet_ok(packets[k]), '
-     '0, len(packets))'),
-    ('queue-wf', 'self.queue is not None and self.queue.unf >= len(self.queue.items) + len(packets)')],
-    modifies=['packets', 'self.queue.items', 'self.queue.unf', 'self.queue.taken',
-              'self.queue.taken_none', 'ghost.now'])
-c.check_before('if not packets:', 'batch-is-exactly-what-was-taken-in-order',
-               'self.queue.taken == taken0 + packets and '
-               'forall(lambda k: packets[k] is not None, 0, len(packets))', props=['C09', 'C10'])
-c.ghost_before('p = payload.Payload(packets=packets)', 'bodies0', 'http_bodies')
-c.check_before('p = payload.Payload(packets=packets)', 'post-batch-within-server-limit',
-               'len(packets) <= 16', props=['C10'])
-c.check_before('for pkt in packets: self.queue.task_done()', 'one-post-carries-the-batch-in-order',
-               'http_bodies == bodies0 + [payload_text(packets, len(packets))]', props=['C09', 'C10'])
-c.loop(2, index='j', invariants=[
-    ('every-packet-of-the-batch-is-marked-done-once',
-     'self.queue is not None and self.queue.unf >= len(self.queue.items) + len(packets) - j')],
-    modifies=['pkt', 'self.queue.unf'])
-c.ghost_before('try: for pkt in packets: encoded_packet = pkt.encode()', 'ws0', 'ws_log')
-c.loop(3, index='j', invariants=[
-    ('done-so-far', 'self.queue is not None and self.ws is not None and '
-     'self.queue.unf >= len(self.queue.items) + len(packets) - j'),
-    ('one-frame-per-packet-in-order', 'len(ws_log) == len(ws0) + j and grows(ws_log, ws0) and '
-     'forall(lambda k: frame_out(ws_log[len(ws0) + k]) and frame_data(ws_log[len(ws0) + k]) == '
-     'wire(packets[k].packet_type, packets[k].data, False), 0, j)'),
-    ('batch-wf', 'forall(lambda k: packets[k] is not None and packet_ok(packets[k]), 0, len(packets))')],
-    modifies=['pkt', 'encoded_packet', 'self.queue.unf', 'ghost.ws_log', 'ghost.now',
-              'Packet.encode_cache'], props=['C09'])
+    c = REG.contract('%s.%s._write_loop' % (_mod, _cls), props=['C09', 'C10'])
+    c.param('self', Ref(_cls))
+    c.requires("self.queue is not None and self.queue.unf >= len(self.queue.items) and "
+               "implies(self.current_transport != 'polling', self.ws is not None)", 'client-wf')
+    c.requires("isinstance(self.ping_interval, float) and isinstance(self.ping_timeout, float) and "
+               "isinstance(self.base_url, str)", 'timing-adopted-from-open')
+    c.queue_rely('x is None or packet_ok(x)',
+                 'guarantee side: precondition packet-wf of _send_packet, proved at its call sites')
+    c.may_raise('Exception', "self.current_transport != 'polling'", label='websocket-library-error')
+    W_MOD = ['self.queue.items', 'self.queue.unf', 'self.queue.taken', 'self.queue.accepted',
+             'self.queue.put_none', 'self.queue.taken_none', 'self.write_loop_task', 'ghost.now',
+             'ghost.http_bodies', 'ghost.ws_log', 'Packet.encode_cache', 'new Payload.packets']
+    c.modifies(*W_MOD)
+    c.ensures('taken-only-grows', 'grows(self.queue.taken, old(self.queue.taken))', props=['C09'])
+    c.loop(0, invariants=[
+        ('taken-only-grows', 'grows(self.queue.taken, old(self.queue.taken))'),
+        ('queue-wf', 'self.queue is not None and self.queue.unf >= len(self.queue.items)'),
+        ('transport-object', "implies(self.current_transport != 'polling', self.ws is not None)")],
+        modifies=['packets', 'timeout', 'p', 'r', 'pkt', 'encoded_packet'] + W_MOD)
+    c.ghost_before('timeout = max(self.ping_interval, self.ping_timeout) + 5', 'taken0',
+                   'self.queue.taken')
+    c.loop(1, invariants=[
+        ('batch-is-what-was-taken', 'self.queue.taken == taken0 + packets'),
+        ('no-sentinel-in-batch', 'forall(lambda k: packets[k] is not None and packet_ok(packets[k]), '
+         '0, len(packets))'),
+        ('queue-wf', 'self.queue is not None and self.queue.unf >= len(self.queue.items) + len(packets)')],
+        modifies=['packets', 'self.queue.items', 'self.queue.unf', 'self.queue.taken',
+                  'self.queue.taken_none', 'ghost.now'])
+    c.check_before('if not packets:', 'batch-is-exactly-what-was-taken-in-order',
+                   'self.queue.taken == taken0 + packets and '
+                   'forall(lambda k: packets[k] is not None, 0, len(packets))', props=['C09', 'C10'])
+    c.ghost_before('p = payload.Payload(packets=packets)', 'bodies0', 'http_bodies')
+    c.check_before('p = payload.Payload(packets=packets)', 'post-batch-within-server-limit',
+                   'len(packets) <= 16', props=['C10'])
+    c.check_before('for pkt in packets: self.queue.task_done()', 'one-post-carries-the-batch-in-order',
+                   'http_bodies == bodies0 + [payload_text(packets, len(packets))]', props=['C09', 'C10'])
+    c.loop(2, index='j', invariants=[
+        ('every-packet-of-the-batch-is-marked-done-once',
+         'self.queue is not None and self.queue.unf >= len(self.queue.items) + len(packets) - j')],
+        modifies=['pkt', 'self.queue.unf'])
+    c.ghost_before('try: for pkt in packets: encoded_packet = pkt.encode()' if _cls == 'Client' else
+                   'try: for pkt in packets: if pkt.binary:', 'ws0', 'ws_log')
+    c.loop(3, index='j', invariants=[
+        ('done-so-far', 'self.queue is not None and self.ws is not None and '
+         'self.queue.unf >= len(self.queue.items) + len(packets) - j'),
+        ('one-frame-per-packet-in-order', 'len(ws_log) == len(ws0) + j and grows(ws_log, ws0) and '
+         'forall(lambda k: frame_out(ws_log[len(ws0) + k]) and frame_data(ws_log[len(ws0) + k]) == '
+         'wire(packets[k].packet_type, packets[k].data, False), 0, j)'),
+        ('batch-wf', 'forall(lambda k: packets[k] is not None and packet_ok(packets[k]), 0, len(packets))')],
+        modifies=['pkt', 'encoded_packet', 'self.queue.unf', 'ghost.ws_log', 'ghost.now',
+                  'Packet.encode_cache'], props=['C09'])
